@@ -411,6 +411,9 @@ class Engine:
 
     def assign_target(self, st, tgt, val, node):
         if isinstance(tgt, ast.Name):
+            ut = self.c.get('unpack_types', {}).get(tgt.id)
+            if ut == 'real' and isinstance(val, Obj):
+                val = Num(self.uf('as_real', V, R)(val.t), npy=True, taint=val.taint, ghost=val.ghost)
             st.env[tgt.id] = val
         elif isinstance(tgt, (ast.Tuple, ast.List)):
             if isinstance(val, Tup) and len(val.items) == len(tgt.elts):
@@ -427,6 +430,8 @@ class Engine:
                     self.assign_target(st, t, item, node)
         elif isinstance(tgt, ast.Attribute):
             o = self.ev(st, tgt.value)
+            if isinstance(o, Bound):
+                o = self.bound_as_value(st, o)
             if self.hooks and hasattr(self.hooks, 'setattr'):
                 if self.hooks.setattr(self, st, o, tgt.attr, val, node) is not NotImplemented:
                     return
@@ -1545,6 +1550,8 @@ class Engine:
                         return Obj(self.fresh('range', V), cls='range', taint=tt, ghost={'range': (lo, hi)})
             if name in ('float', 'np.float64') and len(args) == 1 and isinstance(args[0], Num):
                 return Num(args[0].real(), npy=False, taint=tt)
+            if name in ('float', 'np.float64') and len(args) == 1 and isinstance(args[0], Obj) and 'float' not in self.c.get('pure', {}):
+                return args[0]          # value-preserving coercion of a number the encoding keeps opaque
             if name == 'int' and len(args) == 1 and isinstance(args[0], Num):
                 if args[0].is_int:
                     return args[0]
